@@ -734,6 +734,7 @@ func (interp *Interpreter) cfg(root *node, sc *scope, importPath, pkgName string
 						return
 					}
 					if sc.global || sc.isRedeclared(dest) {
+						shadow := false
 						if n.anc != nil && n.anc.anc != nil && (n.anc.anc.kind == forStmt7 || n.anc.anc.kind == rangeStmt) {
 							// check for redefine of for loop variables, which are now auto-defined in go1.22
 							init := n.anc.anc.child[0]
@@ -745,13 +746,19 @@ func (interp *Interpreter) cfg(root *node, sc *scope, importPath, pkgName string
 							} else { // range
 								fi = init
 							}
-							if fi != nil && dest.ident == fi.ident && src.kind == identExpr && src.ident == dest.ident {
-								n.gen = nop
-								break
+							if fi != nil && dest.ident == fi.ident {
+								if src.kind == identExpr && src.ident == dest.ident {
+									n.gen = nop
+									break
+								}
+								// A new variable, which shadows the per-iteration copy of the loop variable.
+								shadow = !sc.global
 							}
 						}
-						// Do not overload existing symbols (defined in GTA) in global scope.
-						sym, _, _ = sc.lookup(dest.ident)
+						if !shadow {
+							// Do not overload existing symbols (defined in GTA) in global scope.
+							sym, _, _ = sc.lookup(dest.ident)
+						}
 					}
 					if sym == nil {
 						sym = &symbol{index: sc.add(dest.typ), kind: varSym, typ: dest.typ}
@@ -1604,6 +1611,12 @@ func (interp *Interpreter) cfg(root *node, sc *scope, importPath, pkgName string
 			cond.tnext = body.start
 			setFNext(cond, n)
 			body.tnext = post.start
+			if body.child[0].gen != nil && body.child[0].ident != "_" {
+				// The body works on a per-iteration copy of the loop variable: before the post
+				// statement, at the end of the body block (also reached by continue), the loop
+				// variable takes the value of the copy.
+				body.gen = loopVarBack
+			}
 			sc = sc.pop()
 
 		case forRangeStmt:
